@@ -719,6 +719,15 @@ def check_object(run, spec, pend, kind, excel=False, full_csv=True):
     check_df(run, las, case, lambda: build(spec))
     if excel:
         check_excel(run, las, case)
+    # the views are computed from what the curves hold NOW: a sample edited in place after the first exports shows in the next ones
+    fl = [j for j, c in enumerate(las.curves) if c.data.dtype.kind == "f" and len(c.data)]
+    if fl:
+        j = fl[-1]
+        las.curves[j].data[0] = 43.5 if las.curves[j].data[0] == 42.5 else 42.5
+        case2 = dict(case, edited_in_place=[j, 0])
+        check_json(run, las, case2, pend)
+        check_csv(run, las, case2, pend, full=False)
+        check_df(run, las, case2, lambda: build(spec))
 
 
 REPAIRED_TEXTS = [
